@@ -49,7 +49,7 @@ def gen_quote():
         ("quotedPattern", q.QUOTED_RE),
         ("lowercaseQuotedPattern", q.LOWERCASE_QUOTED_RE),
         ("asciiRunPattern", q.ASCII_RE),
-        ("c1ControlPattern", q.C1_CONTROL_RE),
+        ("c1ControlPattern", getattr(q, "NON_PRINTABLE_RE", None) or q.C1_CONTROL_RE),
     ]:
         out.append("def %s : String := %s" % (lean_name, lean_str(rx.pattern)))
         out.append("def %sFlags : Nat := %d" % (lean_name, rx.flags))
